@@ -235,6 +235,10 @@ class C03(Check):
             case["spec"] = self._instance(rng, max_jobs=6 if big else 4, max_ops=5 if big else 4)
             if rng.random() < 0.08:
                 case["limit_us"] = -1  # max_time_in_seconds=None
+        if rng.random() < 0.08 and case["spec"]:
+            total = sum(d for job in case["spec"] for _, d in job)
+            case["meta_bounds"] = rng.choice([[0, max(0, total // 3)], [total + 5, total + 9], [total // 2, total // 2]])
+            self.note("instance_metadata_with_foreign_bounds")
         if rng.random() < 0.35:
             for _ in range(rng.randint(1, 2)):
                 case["prev"].append(self._instance(rng, flexible=rng.random() < 0.15))
@@ -284,18 +288,30 @@ class C03(Check):
         else:
             spec = case["spec"]
             inst = common.build_instance(spec)
+            if case.get("meta_bounds"):
+                # free-form instance metadata that happens to use the benchmark key names with values that do not
+                # belong to this instance (typical after deriving an instance from a benchmark's dictionary)
+                lb, ub = case["meta_bounds"]
+                inst.metadata.update({"lower_bound": lb, "upper_bound": ub, "optimum": ub})
         solver = ORToolsSolver(max_time_in_seconds=limit)
         if "prev_limit_us" in case:
             # the earlier solves ran under ANOTHER value of the documented attribute max_time_in_seconds
             pl = case["prev_limit_us"]
             solver.max_time_in_seconds = None if pl < 0 else (1e-9 if pl == 0 else pl / 1e6)
+        earlier = []
         for ps in case["prev"]:
             try:
-                solver.solve(common.build_instance(ps, name="earlier"))
+                es = solver.solve(common.build_instance(ps, name="earlier"))
+                earlier.append([es, es.metadata.get("makespan"), es.metadata.get("status"), int(es.makespan())])
             except Exception:  # pylint: disable=broad-except
                 pass
         solver.max_time_in_seconds = limit
         obs = _one_solve(solver, inst, bool(case.get("call")))
+        # the results of the EARLIER solves, looked at again now: what a result reports does not change because the
+        # same solver object solved something else afterwards
+        obs["earlier_results_unchanged"] = [
+            1 if (es.metadata.get("makespan") == mk0 == int(es.makespan()) == mk_rows and es.metadata.get("status") == st0)
+            else 0 for es, mk0, st0, mk_rows in earlier]
         obs["spec"] = spec
         obs["bench"] = bench
         # a fresh solver object on the same instance ("does not depend on what was solved before")
@@ -450,6 +466,11 @@ class C03(Check):
                                          "status optimal but not the recorded optimum / above the recorded upper bound",
                                          expected=[opt, bub], observed=mk_spec))
             self.note("status_optimal" if optimal else "status_feasible")
+        if not all(obs.get("earlier_results_unchanged", [])):
+            fails.append(Failure("oracle", "earlier-result-changed",
+                                 "a schedule returned by an earlier solve of the same solver object reports another "
+                                 "makespan / status after the later solve (or its metadata never matched its rows)",
+                                 observed=obs["earlier_results_unchanged"]))
         # independence of earlier solves: a fresh object gives the same verdict
         if obs["fresh"] and not tiny:
             f_exc, f_status, f_mk = obs["fresh"]
@@ -474,6 +495,8 @@ class C03(Check):
     def shrink_candidates(self, case):
         if case.get("bench"):
             return
+        if "meta_bounds" in case:
+            yield {k: v for k, v in case.items() if k != "meta_bounds"}
         if "prev_limit_us" in case:
             yield {k: v for k, v in case.items() if k != "prev_limit_us"}
         if case["prev"]:
